@@ -64,7 +64,16 @@ class BuildResult:
         return "BuildResult(ok=%r kind=%r exc=%r)" % (self.ok, self.kind, self.exc)
 
 
-def build_text(text, extra_files=None, limit=10.0, name="/mem/main.flo"):
+def build_text(text, extra_files=None, limit=10.0, name="/mem/main.flo", retry=True):
+    """Build with the real Builder.  A watchdog hit is retried once with a 12x limit: on a heavily loaded
+    machine a millisecond build can stall for seconds, and only a repeatable hang is a finding."""
+    r = _build_text(text, extra_files, limit, name)
+    if r.kind == "Watchdog" and retry:
+        r = _build_text(text, extra_files, limit * 12, name)
+    return r
+
+
+def _build_text(text, extra_files=None, limit=10.0, name="/mem/main.flo"):
     """Build `text` with the real Builder.  Never raises except core.Watchdog-free: returns
     BuildResult with kind in: 'ok', 'false' (build returned False), 'ParseError',
     'ResolveError', other exception class name, or 'Watchdog'."""
